@@ -32,24 +32,26 @@ def Flt.powi (x : Flt) (n : Nat) : Flt :=
 
 def Flt.sqr (x : Flt) : Flt := x.powi 2
 
-/-- Newton loop of `sqrt`, functions.rs:52-60 -/
-def sqrtLoop : Nat → Flt → Flt → Flt → Option Flt
+/-- Newton loop of `sqrt`, functions.rs (runs in the format `wide`, result cast back to `sem`) -/
+def sqrtLoop (sem : Sem) : Nat → Flt → Flt → Flt → Option Flt
   | 0, _, _, _ => none
   | fuel + 1, target, x, prev =>
     let x1 := x.add (target.div x)
     let x2 := x1.scale (-1) .nte
-    if prev.lt x2 || x2.beq prev then some x2 else sqrtLoop fuel target x2 x2
+    if prev.lt x2 || x2.beq prev then some (x2.cast sem) else sqrtLoop sem fuel target x2 x2
 
-/-- `sqrt`, functions.rs:34-61 -/
+/-- `sqrt`, functions.rs -/
 def Flt.sqrtFuel (fuel : Nat) (x : Flt) : Option Flt :=
   let sem := x.sem
   if x.isZero then some x
   else if x.isNan || x.sign then some (Flt.nan sem x.sign)
   else if x.isInf then some x
   else
-    let two := fromU64 sem 2
-    let x0 := if x.lt two then two else x
-    sqrtLoop fuel x x0 x0
+    let wide := sem.increaseExponent 1
+    let target := x.castWithRm wide .zero
+    let two := fromU64 wide 2
+    let x0 := if target.lt two then two else target
+    sqrtLoop sem fuel target x0 x0
 
 /-- `max`, functions.rs:71-88 -/
 def Flt.max (a b : Flt) : Flt :=
